@@ -141,6 +141,18 @@ def gen_int_text(n, rng, lo=None, hi=None):
     return text, v
 
 
+def int_text_form(rng, v, n):
+    """one of the valid ASCII spellings of the integer v that fit n characters: plain, zero-filled, explicit sign, -0"""
+    forms = [str(v)] * 6
+    if v >= 0:
+        forms += [str(v).zfill(w) for w in range(len(str(v)) + 1, n + 1)][:3] + [str(v).zfill(n)]
+        forms += ["+" + str(v), "+" + str(v).zfill(max(1, n - 1))]
+    if v == 0:
+        forms += ["-0", "-" + "0" * max(1, n - 1)]
+    forms = [f for f in forms if 0 < len(f) <= n]
+    return rng.choice(forms) if forms else str(v)
+
+
 def gen_float_text(n, rng):
     for _ in range(50):
         style = rng.random()
@@ -151,11 +163,17 @@ def gen_float_text(n, rng):
         else:
             x = rng.uniform(-9.99, 9.99) * 10 ** rng.randint(-30, 30)
         p = rng.randint(0, max(0, n - 8))
-        fmt = rng.choice(["f", "E", "e", "g"])
-        text = format(x, f".{p}{fmt}")
+        fmt = rng.choice(["f", "E", "e", "g", "f", "E", "e", "g", "#E", "#e", "#f", "bareexp"])
+        if fmt in ("#E", "#e", "#f"):
+            text = format(x, f"#.0{fmt[1]}")            # a bare decimal point: "5.E+03", "2.e-05", "7."
+        elif fmt == "bareexp":
+            m_, e_ = format(x, f".{p}e").split("e")
+            text = f"{m_}{rng.choice('eE')}{int(e_)}"     # exponent without sign padding: "1.5e5", "2E-7"
+        else:
+            text = format(x, f".{p}{fmt}")
         if rng.random() < 0.1 and not text.startswith("-"):
             text = "+" + text
-        if rng.random() < 0.05 and text.startswith("0."):
+        if rng.random() < 0.05 and text.startswith("0.") and len(text) > 2 and text[2].isdigit():
             text = text[1:]
         if len(text) <= n and text.strip():
             v = float(text)
@@ -236,7 +254,17 @@ class Builder:
                 v = rng.randint(hint["lo"], hint["hi"])
             else:
                 r = rng.random()
-                v = 0 if r < 0.1 else (2 ** (8 * n) - 1 if r < 0.2 else rng.randint(0, 2 ** (8 * n) - 1))
+                if r < 0.1:
+                    v = 0
+                elif r < 0.2:
+                    v = 2 ** (8 * n) - 1
+                elif r < 0.3:
+                    # bit patterns that mean something else when read as text or as a signed number: all blanks / all '0' /
+                    # sign bit only / just below it / one
+                    v = rng.choice([int.from_bytes(b" " * n, "big"), int.from_bytes(b"0" * n, "big"), 2 ** (8 * n - 1),
+                                    2 ** (8 * n - 1) - 1, 1, int.from_bytes(b"\x00" * (n - 1) + b" ", "big")])
+                else:
+                    v = rng.randint(0, 2 ** (8 * n) - 1)
             raw = v.to_bytes(n, "big")
             return raw, Leaf("uint", raw, v, nullable=False, off=start), v
         if k in ("aint", "afloat", "pstr", "acomplex"):
@@ -362,10 +390,12 @@ class Builder:
         g = hint["gen"]
         if g == "range":
             v = rng.randint(hint["lo"], hint["hi"])
-            return str(v), v
+            return int_text_form(rng, v, n), v
         if g == "choice":
             v = rng.choice(hint["values"])
-            return str(v), (int(v) if k == "aint" else v)
+            if k == "aint":
+                return int_text_form(rng, int(v), n), int(v)
+            return str(v), v
         if g == "datetime17":  # %Y%m%d%H%M%S%f
             year = rng.randint(2014, 2049)
             doy = rng.randint(1, year_len(year))
